@@ -2,7 +2,7 @@ SPECIFICATION Spec
 CONSTANTS
   K = 2
   Debug = FALSE
-  Fix = {}
+  Fix = {"direct_guard"}
   Ctors = {"var", "map", "bind"}
   Fs1 = {"id"}
   Fs2 = {"add"}
